@@ -4729,6 +4729,8 @@ C16_BLANK_DOCS = [
     "Feature: f\n  described\n  # c\n  more\n\n  Scenario: s\n    described too\n\n    # c\n    Given g\n      \"\"\"\n      text\n\n      \"\"\"\n    # c\n  Scenario: t\n  # c\n",
     "Feature: f\n  Rule: r\n  # c\n  Background:\n  # c\n  Scenario: s\n  # c\n  Scenario Outline: o\n  # c\n  Examples:\n  # c\n  Examples: e\n",
     "Feature: f\n  Scenario: s\n    Given g\n    # c\n    oops\n  # c\n  Scenario: t\n",
+    "Feature: f\n  Background:\n    Given b\n      \"\"\"\n      d\n      \"\"\"\n      | a | b |\n  Scenario: s\n    Given g\n      ```\n      d\n      ```\n      | a |\n",
+    "Feature: f\n  Rule: r\n    Background:\n      Given b\n        \"\"\"\n        d\n        \"\"\"\n        | a | b |\n    Example: e\n      Given g\n        \"\"\"\n        d\n        \"\"\"\n        | a |\n      And h\n",
 ]
 
 
@@ -4739,7 +4741,7 @@ def c16_blank_everywhere(ctx):
     behind the insertion raised by one.  Documents with comments directly behind title lines (where the grammar opens a
     description that may turn out empty), between tags, between table rows, before steps"""
     impl = impl_mod()
-    blanks = ["", " ", "\t", "  \t ", "\xa0", " \r"]
+    blanks = ["", " ", "\t", "  \t ", "\xa0", " \r", "  # an inserted comment"]
     variants = []
     for d in C16_BLANK_DOCS:
         lines = d.split("\n")[:-1]
@@ -4797,6 +4799,39 @@ def c16_blank_everywhere(ctx):
                 return {"what": "a blank line %r inserted before line %d of a document without descriptions and doc strings changes more than line numbers" % (b, i + 1), "variant": var}
         return None
     c2 = oracle("blank-everywhere-relation", pool, check, describe=lambda s: s[:200])
+
+    heads = ("Given ", "When ", "Then ", "And ", "But ", "* ", "Feature:", "Rule:", "Background:", "Scenario:", "Scenario Outline:", "Example:", "Examples:", "@", "|", '"""', "```")
+
+    def check_comment(src):
+        """a comment line directly before a keyword, step, tag, table-row or opening-delimiter line (outside doc strings) of
+        the hand-written documents without descriptions, accepted or rejected: the result is the original with the line
+        numbers raised and, when accepted, that comment added"""
+        base = res_of(src)
+        if "foreign" in base or ("ok" in base and not plain(dict(base["ok"], comments=[]))):
+            return None
+        lines = src.split("\n")[:-1]
+        inside = None
+        for i, ln in enumerate(lines):
+            t = ln.strip()
+            if inside:
+                if t.startswith(inside):
+                    inside = None
+                continue
+            if t.startswith(heads):
+                cm = "   # inserted %d" % i
+                var = "".join(x + "\n" for x in lines[:i] + [cm] + lines[i:])
+                want = shift(base, i + 1)
+                if "ok" in want:
+                    want = {"ok": dict(want["ok"], comments=sorted(want["ok"]["comments"] + [{"location": {"line": i + 1, "column": 1}, "text": cm}], key=lambda c: c["location"]["line"]))}
+                if canon(res_of(var)) != canon(want):
+                    return {"what": "a comment line inserted directly before line %d (%r) changes more than line numbers and that comment" % (i + 1, t[:30]), "variant": var}
+            if t.startswith(('"""', "```")):
+                inside = t[:3]
+        return None
+    c3 = oracle("comment-before-structural-lines-relation", [d for d in C16_BLANK_DOCS if "described" not in d], check_comment, describe=lambda s: s[:200])
+    c2.evaluations += c3.evaluations
+    c2.disagreements += c3.disagreements
+    c2.nontrivial |= c3.nontrivial
     c1.evaluations += c2.evaluations
     c1.disagreements += c2.disagreements
     c1.nontrivial |= c2.nontrivial
@@ -4834,3 +4869,186 @@ def c11_markup_rows_and_vanishing_texts(ctx):
 
 for _pid in ("C11", "C12", "C04", "C06", "C07", "C09"):
     P.PROPS[_pid]["streams"].append(c11_markup_rows_and_vanishing_texts)
+
+
+# ---------------------------------------------------------------- round-19 strengthening
+def o_long_element_runs(ctx):
+    """nothing in the pipeline is bounded by the NUMBER of repeated elements: 1100 and 3500 (thorough: 12000) consecutive
+    And steps behind one Given (background and scenario steps together), But steps, scenarios, rules, examples blocks,
+    examples rows, table rows, tags, doc-string lines -- the stream yields the source, the document and the pickles
+    the text was assembled from, with the step types its keywords give (implementation only: too slow for the model)"""
+    impl = impl_mod()
+    sizes = [1100, 3500] + ([12000] if S.n_for(0, 1) else [])
+    kinds = ["and-steps", "but-after-background", "scenarios", "rules", "examples-blocks", "examples-rows", "table-rows", "tags", "docstring-lines", "star-steps"]
+
+    def build(kind, n):
+        """source, expected number of pickles, expected (texts, types) of the first pickle's steps (or None)"""
+        if kind == "and-steps":
+            return ("Feature: f\n  Scenario: s\n    Given a\n" + "".join("    And b%d\n" % i for i in range(n)), 1, (["a"] + ["b%d" % i for i in range(n)], ["Context"] * (n + 1)))
+        if kind == "but-after-background":
+            h = n // 2
+            return ("Feature: f\n  Background:\n    When w\n" + "".join("    And b%d\n" % i for i in range(h)) + "  Scenario: s\n" + "".join("    But c%d\n" % i for i in range(n - h)) + "    Then t\n    And u\n",
+                    1, (["w"] + ["b%d" % i for i in range(h)] + ["c%d" % i for i in range(n - h)] + ["t", "u"], ["Action"] * (n + 1) + ["Outcome", "Outcome"]))
+        if kind == "star-steps":
+            return ("Feature: f\n  Scenario: s\n    Then a\n" + "".join("    * b%d\n    And c%d\n" % (i, i) for i in range(n // 2)), 1,
+                    (["a"] + [x for i in range(n // 2) for x in ("b%d" % i, "c%d" % i)], ["Outcome"] + ["Unknown"] * (2 * (n // 2))))
+        if kind == "scenarios":
+            return ("Feature: f\n" + "".join("  Scenario: s%d\n    Given g\n    And h\n" % i for i in range(n)), n, (["g", "h"], ["Context", "Context"]))
+        if kind == "rules":
+            return ("Feature: f\n" + "".join("  Rule: r%d\n    Example: e\n      When g\n      But h\n" % i for i in range(n)), n, (["g", "h"], ["Action", "Action"]))
+        if kind == "examples-blocks":
+            return ("Feature: f\n  Scenario Outline: o\n    Given <a>\n    And z\n" + "".join("    Examples: e%d\n      | a |\n      | v%d |\n" % (i, i) for i in range(n)), n, (["v0", "z"], ["Context", "Context"]))
+        if kind == "examples-rows":
+            return ("Feature: f\n  Scenario Outline: o\n    Given <a>\n    And z\n    Examples:\n      | a |\n" + "".join("      | v%d |\n" % i for i in range(n)), n, (["v0", "z"], ["Context", "Context"]))
+        if kind == "table-rows":
+            return ("Feature: f\n  Scenario: s\n    Given g\n" + "".join("      | r%d |\n" % i for i in range(n)) + "    And h\n", 1, (["g", "h"], ["Context", "Context"]))
+        if kind == "tags":
+            return ("Feature: f\n" + "".join("  @t%d\n" % i for i in range(n)) + "  Scenario: s\n    Given g\n    And h\n", 1, (["g", "h"], ["Context", "Context"]))
+        if kind == "docstring-lines":
+            return ("Feature: f\n  Scenario: s\n    Given g\n      \"\"\"\n" + "".join("      l%d\n" % i for i in range(n)) + "      \"\"\"\n    And h\n", 1, (["g", "h"], ["Context", "Context"]))
+        raise ValueError(kind)
+
+    def check(it):
+        kind, n = it
+        src, npk, first = build(kind, n)
+        ev = impl.events(True, True, True, False, [["long.feature", src], ["after.feature", "Feature: after\n  Scenario: s\n    Given g\n"]])
+        if "envelopes" not in ev:
+            return {"what": "the stream raised on a document with %d %s: %s" % (n, kind, canon(ev)[:200])}
+        envs = ev["envelopes"]
+        ks = [list(e)[0] for e in envs]
+        want = ["source", "gherkinDocument"] + ["pickle"] * npk + ["source", "gherkinDocument", "pickle"]
+        if ks != want:
+            return {"what": "%d %s: envelope kinds %r.. (%d) where source, document and %d pickles (then the next source's three) are due" % (n, kind, ks[:4], len(ks), npk)}
+        pk = envs[2]["pickle"]
+        if [s["text"] for s in pk["steps"]] != first[0] or [s["type"] for s in pk["steps"]] != first[1]:
+            bad = [i for i, s in enumerate(pk["steps"]) if i >= len(first[0]) or s["text"] != first[0][i] or s["type"] != first[1][i]][:1]
+            return {"what": "%d %s: the first pickle's steps (texts, types) are not those of the text; first difference at step %r of %d (expected %d)" % (n, kind, bad, len(pk["steps"]), len(first[0]))}
+        if kind == "tags" and [t["name"] for t in pk["tags"]] != ["@t%d" % i for i in range(n)]:
+            return {"what": "%d tags: the pickle carries %d" % (n, len(pk["tags"]))}
+        if kind == "table-rows" and len(pk["steps"][0]["argument"]["dataTable"]["rows"]) != n:
+            return {"what": "%d table rows: the pickle step carries %d" % (n, len(pk["steps"][0]["argument"]["dataTable"]["rows"]))}
+        if kind == "docstring-lines" and pk["steps"][0]["argument"]["docString"]["content"] != "\n".join("l%d" % i for i in range(n)):
+            return {"what": "%d doc-string lines: the content differs" % n}
+        ids = []
+
+        def walk(v):
+            if isinstance(v, dict):
+                for k, x in v.items():
+                    if k == "id":
+                        ids.append(int(x))
+                    else:
+                        walk(x)
+            elif isinstance(v, list):
+                for x in v:
+                    walk(x)
+        for e in envs:
+            walk(e)
+        if sorted(ids) != list(range(len(ids))):
+            return {"what": "%d %s: the ids of the stream are not 0 .. %d without gaps" % (n, kind, len(ids) - 1)}
+        return None
+    return oracle("long-element-runs", [(k, n) for n in sizes for k in kinds], check, describe=lambda it: "%d %s" % (it[1], it[0]))
+
+
+for _pid in ("C17", "C01", "C10", "C06", "C07", "C08", "C11"):
+    P.PROPS[_pid]["streams"].append(o_long_element_runs)
+
+
+def c12_escape_dense_cells(ctx):
+    """a cell is decoded escape by escape whatever their number: cells holding 1 .. 1000 escapes (31, 32, 33, 63, 64, 65
+    among them) -- of one kind, of the three kinds in turn, with other backslash pairs and plain text in between -- are
+    read back escape for escape; as rows on their own and inside data tables and examples tables"""
+    reqs, srcs = [], []
+    for k in (1, 2, 15, 16, 17, 31, 32, 33, 34, 63, 64, 65, 100, 255, 256, 257, 1000):
+        for unit in ("\\n", "\\|", "\\\\", "\\n\\|\\\\", "x\\ny", "\\q\\n", "\\|a\\\\b"):
+            cell = (unit * k)[:4000]
+            reqs.append(("table_cells", ["| %s | z |" % cell]))
+            reqs.append(("table_cells", ["| a | %s | %s |" % (cell, unit * 3)]))
+        cell = "\\n\\|\\\\" * k
+        if k <= 100:
+            srcs.append("Feature: f\n  Scenario Outline: o\n    Given <h>\n      | %s |\n    Examples:\n      | h |\n      | %s |\n" % (cell, cell))
+    c1 = differential("escape-dense-cells", reqs, nontrivial=lambda q, r_: q[1][0][:40], classify=lambda q, r_: "row", exhaustive=True)
+    c2 = e2e("escape-dense-cells-in-tables", srcs, P.p_cells, nontrivial=nt_accepted("ast"), exhaustive=True)
+    c1.evaluations += c2.evaluations
+    c1.disagreements += c2.disagreements
+    c1.nontrivial |= c2.nontrivial
+    return c1
+
+
+for _pid in ("C12", "C09"):
+    P.PROPS[_pid]["streams"].append(c12_escape_dense_cells)
+
+
+def c14_messages_quoting_messages(ctx):
+    """errors are told apart by their whole message, not by parts of it: an unexpected line whose text quotes, word for
+    word, the message of an error that comes later in the same document (a ragged table, a malformed tag line, another
+    unexpected line, the unexpected end of file) -- that later error is still listed, at its own row / line"""
+    impl = impl_mod()
+    shells = ["Feature: f\n  Scenario: s\n    Given g\n    %s\n    And t\n      | a | b |\n      | c |\n      | d | e | f |\n",
+              "Feature: f\n  Scenario Outline: o\n    Given <a>\n    %s\n    Examples:\n      | a |\n      | 1 | 2 |\n",
+              "Feature: f\n  Scenario: s\n    Given g\n    %s\n  @bad tag\n  Scenario: t\n    Given h\n",
+              "Feature: f\n  Scenario: s\n    Given g\n    %s\n    And h\n    another stray line\n",
+              "Feature: f\n  Scenario: s\n    Given g\n    %s\n    And h\n      \"\"\"\n      never closed\n",
+              "Feature: f\n  Scenario: s\n    Given g\n    %s\n  @t\n"]
+    srcs = []
+    for sh in shells:
+        r0 = impl.parse(False, "en", sh % "stray")
+        msgs = [e["message"] for e in r0.get("errors", [])][1:]
+        for m in msgs:
+            for quote in (m, "see " + m + " below", m.split(": ", 1)[-1], m[:len(m) // 2]):
+                if "\n" not in quote:
+                    srcs.append(sh % quote)
+    return e2e("messages-quoting-messages", srcs, P.p_errors, modes=(False, True), nontrivial=nt_rejected, exhaustive=True)
+
+
+for _pid in ("C14", "C12", "C01", "C18"):
+    P.PROPS[_pid]["streams"].append(c14_messages_quoting_messages)
+
+
+def c13_background_arguments_in_outlines(ctx):
+    """the arguments of Background steps (feature level and rule level) reach every pickle as written: a doc string or
+    a table in a Background that spells a placeholder of a later Scenario Outline -- in its content, its media type, its
+    cells -- is not interpolated; the outline's own arguments are"""
+    srcs = []
+    for d in ('"""', "```"):
+        for lvl in ("feature", "rule", "both"):
+            fb = "  Background:\n    Given fb <a>\n      %s<a>\n      Dear <a>, <b> <c>\n      %s\n    And ft\n      | <a> | <b> |\n" % (d, d)
+            rb = "    Background:\n      Given rb <a>\n        %s\n        rule <a>\n        %s\n" % (d, d)
+            out = "    Scenario Outline: o <a>\n      Given own <a>\n        %s<b>\n        own <a> <b>\n        %s\n      Examples:\n        | a | b |\n        | 1 | 2 |\n        | x | y |\n    Scenario: plain <a>\n      Given p <a>\n" % (d, d)
+            if lvl == "feature":
+                srcs.append("Feature: f\n" + fb + out)
+            elif lvl == "rule":
+                srcs.append("Feature: f\n  Rule: r\n" + rb + out)
+            else:
+                srcs.append("Feature: f\n" + fb + "  Rule: r\n" + rb + out + "  Rule: r2\n" + out)
+    reqs = [("events", [False, True, True, False, [["u.feature", s]]]) for s in srcs]
+    return differential("background-arguments-in-outlines", reqs, nontrivial=lambda q, x: canon(q[1])[:160] if x.get("envelopes") else None,
+                        classify=lambda q, x: "doc", exhaustive=True)
+
+
+for _pid in ("C13", "C07", "C09"):
+    P.PROPS[_pid]["streams"].append(c13_background_arguments_in_outlines)
+
+
+def c16_docstring_blank_widths(ctx):
+    """whitespace-only lines inside a doc string, of every width from nothing to two beyond the delimiter's indentation
+    (0 .. 8), made of blanks or tabs, as first, inner and last content line: the content is the line minus the
+    delimiter's indentation (nothing when the line is shorter), the same with LF and with CRLF line endings, with and
+    without a final line break"""
+    srcs = []
+    for d in ('"""', "```"):
+        for k in range(0, 9):
+            ind = " " * k
+            for w in range(0, k + 3):
+                for ch in (" ", "\t"):
+                    if ch == "\t" and w not in (k - 1, k, k + 1):
+                        continue
+                    line = ch * w
+                    body = "Feature: f\n  Scenario: s\n    Given g\n%s%s\n%s\n%sa\n%s\n%sb\n%s\n%s%s\n    And h\n" % (ind, d, line, ind, line, ind, line, ind, d)
+                    srcs += [body, body.replace("\n", "\r\n")]
+                    if w == k:
+                        srcs += [body.rstrip("\n"), body.replace("\n", "\r\n")[:-2]]
+    return e2e("docstring-blank-widths", srcs, P.p_whole, modes=(False,), nontrivial=nt_accepted("ast"), exhaustive=True)
+
+
+for _pid in ("C16", "C13"):
+    P.PROPS[_pid]["streams"].append(c16_docstring_blank_widths)
